@@ -28,6 +28,8 @@ def site_kind(d, s):
     """what kind of connection the fault is planted on (measured per class in the evidence)"""
     mi, ii, ci = s
     x = d["mods"][mi]["insts"][ii]
+    if ci is None:            # an instance-level site (the fault is not planted on an existing connection)
+        return ("portless-target" if not D.target_ports(d, x["of"]) else "instance") + ("@array" if x["n"] > 0 else "")
     c = x["conns"][ci][1]
     k = {"sig": "signal", "sl": "slice", "cat": "concat", "ref": "port-ref", "nc": "no-connect"}[c[0]]
     if k == "signal":
@@ -39,6 +41,36 @@ def sites(design):
     """(module index, instance index, conn index) of every connection."""
     return [(mi, ii, ci) for mi, md in enumerate(design["mods"]) for ii, x in enumerate(md["insts"])
             for ci, _ in enumerate(x["conns"])]
+
+
+def inst_sites(design):
+    """(module index, instance index, None) of every instance: where a connection can be ADDED, also on an instance that has none"""
+    return [(mi, ii, None) for mi, md in enumerate(design["mods"]) for ii, _ in enumerate(md["insts"])]
+
+
+def with_portless(r, d):
+    """Some base designs get a self-contained Module WITHOUT ANY PORT (a test bench: a resistor between two internal nets),
+    instantiated - with no connection at all, which is what is valid - in the top module and below it, singly and as an array.
+    Valid designs; `extra` and `badref` then have port-less targets to plant their fault on."""
+    if r.random() < 0.4:
+        return d
+    for md in d["mods"]:
+        for x in md["insts"]:
+            if x["of"][0] == "mod":
+                x["of"] = ["mod", x["of"][1] + 1]
+    bench = dict(name="Bench", ports=[], sigs=[["a", 1], ["b", 2]],
+                 insts=[dict(name="r0", n=0, of=["prim", "R", 1], conns=[["p", ["sig", "a"]], ["n", ["sl", ["sig", "b"], ["i", 1]]]])])
+    d["mods"].insert(0, bench)
+    d["top"] += 1
+    for mi in sorted(reachable(d)):
+        if mi != 0 and (mi == d["top"] or r.random() < 0.7):
+            d["mods"][mi]["insts"].append(dict(name=f"pl{mi}", n=2 if r.random() < 0.2 else 0, of=["mod", 0], conns=[]))
+    return d
+
+
+def tag(d, *tags):
+    d.setdefault("_tags", []).extend(tags)
+    return d
 
 
 def conn_width(design, md, x, c):
@@ -100,7 +132,15 @@ def m_missing(r, d, s):
 def m_extra(r, d, s):
     mi, ii, ci = s
     md = d["mods"][mi]; x = md["insts"][ii]
-    x["conns"].append(["nosuchport", expr_of_width(r, md, 1, 0)])
+    w = r.choice([1, 1, 2])
+    e = expr_of_width(r, md, w, r.choice([0, 0, 1])) or expr_of_width(r, md, 1, 0)
+    if e is None:
+        return None
+    if r.random() < 0.15:
+        e = ["cat", [e]]
+    x["conns"].append([r.choice(["nosuchport", "nosuchport", "vdd", "p"]) if not D.target_ports(d, x["of"]) else "nosuchport", e])
+    if not D.target_ports(d, x["of"]):
+        tag(d, "portless-target@" + ("top" if mi == d["top"] else "deep"))
     return d
 
 
@@ -110,7 +150,10 @@ def m_badref(r, d, s):
     others = [y["name"] for y in md["insts"] if y is not x and y["n"] == 0]
     if not others or x["n"] > 0:
         return None
-    c[1] = ["ref", r.choice(others), "nosuchport"]
+    y = r.choice(others)
+    c[1] = ["ref", y, "nosuchport"]
+    if not D.target_ports(d, D.find_inst(md, y)["of"]):
+        tag(d, "ref-to-portless-target")
     return d
 
 
@@ -297,9 +340,154 @@ def m_array_missing(r, d, s):
     return d
 
 
+def _set_decl_width(md, n, w):
+    for row in md["ports"] + md["sigs"]:
+        if row[0] == n:
+            row[1] = w
+
+
+def m_width_late(r, d, s):
+    """HISTORY: the connection is made (and, half of the time, asked for its public attributes) while it has the port's width;
+    THEN a Signal it holds whole is re-declared one bit wider / narrower (`sig.width = ...`).  The design handed to the entry
+    points has a connection of the wrong width."""
+    mi, ii, ci = s
+    md = d["mods"][mi]; x = md["insts"][ii]; c = x["conns"][ci]
+    if not is_plain(c):
+        return None
+    w = conn_width(d, md, x, c)
+    if x["n"] > 0 and w * x["n"] in (w + 1, w - 1):
+        return None
+    if r.random() < 0.6:
+        # a FLAT concatenation (whole Signals and unit-step slices of Signals, nothing nested) of fresh Signals
+        k = r.randint(1, min(3, w))
+        cuts = sorted(r.sample(range(1, w), k - 1))
+        ws = [b - a for a, b in zip([0] + cuts, cuts + [w])]
+        parts = []
+        for j, pw in enumerate(ws):
+            md["sigs"].append([f"h{j}", pw])
+            parts.append(["sig", f"h{j}"])
+        ones = [j for j, pw in enumerate(ws) if pw == 1]
+        if len(parts) > 1 and ones and r.random() < 0.5:
+            md["sigs"].append(["hs", 3])           # one of the one-bit parts is a unit slice of a Signal instead
+            parts[r.choice(ones)] = ["sl", ["sig", "hs"], ["i", r.randint(0, 2)]]
+        c[1] = ["cat", parts]
+        names = [p[1] for p in parts if p[0] == "sig"]
+        flat = True
+    else:
+        e = c[1]
+        names = [e[1]] if e[0] == "sig" else [p[1] for p in e[1] if p[0] == "sig"] if e[0] == "cat" else []
+        flat = e[0] == "cat" and all(p[0] == "sig" or (p[0] == "sl" and p[1][0] == "sig") for p in e[1])
+    if not names:
+        return None
+    n = r.choice(names)
+    w0 = D.sig_width(md, n)
+    _set_decl_width(md, n, w0 + 1 if w0 == 1 or r.random() < 0.6 else w0 - 1)
+    obs = r.random() < 0.7
+    d["hist"] = dict(observe=obs, late=[[mi, n, w0]])
+    tag(d, "observed" if obs else "unobserved")
+    if flat and c[1][0] == "cat":
+        tag(d, "flat-concat-observed" if obs else "flat-concat-unobserved")
+    return d
+
+
+def m_index_late(r, d, s):
+    """HISTORY: a slice is taken (and asked for its width) while its index is in range; THEN the Signal is narrowed so that the
+    index lies outside it.  The design handed to the entry points has an out-of-range index."""
+    mi, ii, ci = s
+    md = d["mods"][mi]; x = md["insts"][ii]; c = x["conns"][ci]
+    if not is_plain(c):
+        return None
+    w = conn_width(d, md, x, c)
+    sw = w + r.randint(1, 2)
+    md["sigs"].append(["hz", sw])
+    if w == 1:
+        top = ["sl", ["sig", "hz"], ["i", r.choice([sw - 1, -sw])]]
+    else:
+        top = ["cat", [["sl", ["sig", "hz"], ["s", 0, w - 1, None]], ["sl", ["sig", "hz"], ["i", sw - 1]]]]
+    c[1] = top
+    md["sigs"][-1][1] = sw - r.randint(1, sw - w)          # narrower: index sw-1 (resp. -sw) no longer exists
+    obs = r.random() < 0.7
+    d["hist"] = dict(observe=obs, late=[[mi, "hz", sw]])
+    tag(d, "observed" if obs else "unobserved")
+    return d
+
+
+def m_width_ref_array(r, d, s):
+    """width through a port reference AND array broadcasting: a reference to a port (width w) of an Instance ARRAY that is wired
+    to an n*w Signal stands for that Signal; alone or as a part of a concatenation it is (n-1)*w bits too wide for the port"""
+    mi, ii, ci = s
+    md = d["mods"][mi]; x = md["insts"][ii]; c = x["conns"][ci]
+    if x["n"] > 0:
+        return None
+    W = conn_width(d, md, x, c)
+    txt = json.dumps(md["insts"])
+    arrs = [(y, k, cc[0], conn_width(d, md, y, cc)) for y in md["insts"] if y["n"] > 1 for k, cc in enumerate(y["conns"])
+            if conn_width(d, md, y, cc) <= W and json.dumps(["ref", y["name"], cc[0]]) not in txt]
+    if not arrs:
+        return None
+    y, k, q, w = r.choice(arrs)
+    md["sigs"].append(["ha", w * y["n"]])
+    y["conns"][k][1] = ["sig", "ha"]
+    ref = ["ref", y["name"], q]
+    if w == W:
+        c[1] = ref
+    else:
+        rest = expr_of_width(r, md, W - w, 0)
+        if rest is None:
+            return None
+        c[1] = ["cat", [ref, rest] if r.random() < 0.5 else [rest, ref]]
+    obs = r.random() < 0.7
+    d["hist"] = dict(observe=obs)
+    tag(d, "observed" if obs else "unobserved")
+    return d
+
+
 MUTATORS = dict(width=m_width, width_ref=m_width_ref, missing=m_missing, extra=m_extra, badref=m_badref, index=m_index,
                 empty=m_empty, orphan=m_orphan, orphan_inst=m_orphan_inst, foreignref=m_foreignref, nc_ref=m_nc_ref, cycle=m_cycle, unnamed=m_unnamed,
-                nameclash=m_nameclash, array_width=m_array_width, array_missing=m_array_missing)
+                nameclash=m_nameclash, array_width=m_array_width, array_missing=m_array_missing,
+                width_late=m_width_late, index_late=m_index_late, width_ref_array=m_width_ref_array)
+
+# coverage targets of the strengthening round: a class must have produced faulty mutants carrying each of these tags
+REQUIRED_TAGS = dict(extra=["portless-target@top", "portless-target@deep"], badref=["ref-to-portless-target"],
+                     width_late=["observed", "unobserved", "flat-concat-observed"], index_late=["observed", "unobserved"],
+                     width_ref_array=["observed"])
+
+
+def gen_mutants(seed, bases, per_class):
+    """the single-fault mutants of the core base designs (also used by harness/vp/c02e.py and c02f.py)"""
+    muts, meta = [], []
+    for cls, m in _corpus():
+        muts.append(m); meta.append(dict(cls=cls, base=-1, top=True, site_kind="corpus", tags=["corpus"]))
+    for k, base in enumerate(bases):
+        reach = reachable(base)
+        ss = [s for s in sites(base) if s[0] in reach]      # faults in unreachable modules are not faults of the design
+        if not ss:
+            continue
+        deep = [s for s in ss if s[0] != base["top"]]
+        iss = [s for s in inst_sites(base) if s[0] in reach]
+        for cls, f in MUTATORS.items():
+            if cls in ("width_late", "index_late") and k % 2:
+                continue                 # the two late-edit classes: every second base design (wall time of the quick tier)
+            for j in range(per_class):
+                rr = core.rng(seed, "C02", cls, k * 16 + j)
+                if cls == "extra":
+                    # a connection can be ADDED to any instance: also to one that has none because its target has no port
+                    pl = [s for s in iss if not D.target_ports(base, base["mods"][s[0]]["insts"][s[1]]["of"])]
+                    pool = pl if pl and rr.random() < 0.5 else iss
+                    dp = [s for s in pool if s[0] != base["top"]]
+                    site = rr.choice(dp) if dp and rr.random() < 0.5 else rr.choice(pool)
+                else:
+                    site = rr.choice(deep) if deep and rr.random() < 0.5 else rr.choice(ss)
+                b = copy.deepcopy(base)
+                b.pop("hist", None)
+                m = f(rr, b, site)
+                if m is not None:
+                    tags = m.pop("_tags", [])
+                    if "hist" not in m and rr.random() < 0.3:
+                        m["hist"] = dict(observe=True)         # every class: asking the parts for their public attributes changes nothing
+                        tags.append("observed")
+                    muts.append(m); meta.append(dict(cls=cls, base=k, top=site[0] == base["top"], site_kind=site_kind(base, site), tags=tags))
+    return muts, meta
 
 
 def reachable(d):
@@ -319,7 +507,7 @@ def _accepted_by(o):
     return [k for k, v in o.items() if v[0] == "accepted"]
 
 
-def _mutant_stream(run, name, kind, muts, meta, mutators, printer, chk, classes, replay):
+def _mutant_stream(run, name, kind, muts, meta, mutators, printer, chk, classes, replay, required_tags=None):
     """Run the implementation on every mutant, evaluate the specification in Coq, report."""
     outs = core.run_worker_sharded("c02", [dict(design=m, kind=kind, entry=ENTRY) for m in muts])
     accepted = [bool(_accepted_by(o)) for o in outs]
@@ -334,7 +522,7 @@ def _mutant_stream(run, name, kind, muts, meta, mutators, printer, chk, classes,
     per = {}
     for i, mt in enumerate(meta):
         e = per.setdefault(mt["cls"], dict(mutants=0, not_faulty_by_spec=0, accepted_by_impl=0, top=0, deep=0,
-                                           spec_error_codes={}, site_kinds={}))
+                                           spec_error_codes={}, site_kinds={}, tags={}))
         if code.get(i) == 9:
             e["not_faulty_by_spec"] += 1
             continue
@@ -342,6 +530,8 @@ def _mutant_stream(run, name, kind, muts, meta, mutators, printer, chk, classes,
         e["top" if mt.get("top") else "deep"] += 1
         sk = mt.get("site_kind", "?")
         e["site_kinds"][sk] = e["site_kinds"].get(sk, 0) + 1
+        for tg in mt.get("tags", []):
+            e["tags"][tg] = e["tags"].get(tg, 0) + 1
         ec = str(cls_codes.get(i, 0))
         e["spec_error_codes"][ec] = e["spec_error_codes"].get(ec, 0) + 1
         if code.get(i) == 1:
@@ -350,6 +540,8 @@ def _mutant_stream(run, name, kind, muts, meta, mutators, printer, chk, classes,
     run.stream(name, len(faulty), len({json.dumps(muts[i], sort_keys=True) for i in faulty}),
                per_class=per, dropped_not_faulty=len(muts) - len(faulty), model_tied_cases=n_tied,
                model_disagrees=sum(1 for c in code.values() if c == 2),
+               histories=dict(observed_before_the_call=sum(1 for i in faulty if (muts[i].get("hist") or {}).get("observe")),
+                              widths_edited_after_connecting=sum(1 for i in faulty if (muts[i].get("hist") or {}).get("late"))),
                rule="every counted mutant is faulty by the specification (Spec/WfDesign.v resp. Spec/C02BundleWf.v, evaluated "
                     "in Coq); distinct by mutant design; one class per fault kind of the statement; top/deep = fault planted "
                     "in the top module / below it; site_kinds = kind of connection the fault sits on")
@@ -358,6 +550,9 @@ def _mutant_stream(run, name, kind, muts, meta, mutators, printer, chk, classes,
             run.violation(f"C02:coverage:{cls}", f"no faulty mutant of class {cls} was generated", dict(kind="coverage"), found_input=False)
         elif replay is None and tier_deep_required(cls) and per[cls]["deep"] == 0:
             run.violation(f"C02:coverage-deep:{cls}", f"class {cls} was never planted below the top module", dict(kind="coverage"), found_input=False)
+        for tg in (required_tags or {}).get(cls, []) if replay is None else []:
+            if per.get(cls, {}).get("tags", {}).get(tg, 0) == 0:
+                run.violation(f"C02:coverage-tag:{cls}:{tg}", f"class {cls}: no faulty mutant of the kind `{tg}` was generated", dict(kind="coverage"), found_input=False)
     v2 = sorted([i for i in range(len(muts)) if code.get(i) == 2], key=lambda i: len(json.dumps(muts[i])))
     if v2:
         i = v2[0]
@@ -421,7 +616,21 @@ def _corpus():
     arr = dict(name="Top", ports=[], sigs=[["s", 4]], insts=[dict(name="i0", n=2, of=["mod", 0], conns=[["a", ["sl", ["sig", "s"], ["i", 0]]]])])
     oor = dict(name="Top", ports=[], sigs=[["s", 4]],
                insts=[dict(name="i0", n=0, of=["mod", 0], conns=[["a", ["sl", ["sig", "s"], ["i", 4]]], ["b", ["sl", ["sig", "s"], ["i", -5]]]])])
-    return [("array_missing", dict(mods=[two, arr], exts=[], top=1)), ("index", dict(mods=[copy.deepcopy(two), oor], exts=[], top=1))]
+    # strengthening round (notes/C02.md): the witness of fixes/C02-3 - `sl = s[3]; sl.width; s.width = 2; Leaf(p=sl)` was exported with
+    # bit s_3 of a two-bit bus - and the three shapes the quick tier had been blind to
+    leaf = dict(name="Leaf", ports=[["p", 1, "in"]], sigs=[["q", 1]],
+                insts=[dict(name="r0", n=0, of=["prim", "R", 1], conns=[["p", ["sig", "p"]], ["n", ["sig", "q"]]])])
+    late_ix = dict(mods=[leaf, dict(name="Top", ports=[], sigs=[["s", 2]], insts=[dict(name="i0", n=0, of=["mod", 0], conns=[["p", ["sl", ["sig", "s"], ["i", 3]]]])])],
+                   exts=[], top=1, hist=dict(observe=True, late=[[1, "s", 4]]))
+    bench = dict(name="Bench", ports=[], sigs=[["a", 1], ["b", 1]],
+                 insts=[dict(name="r0", n=0, of=["prim", "R", 1], conns=[["p", ["sig", "a"]], ["n", ["sig", "b"]]])])
+    extra_pl = dict(mods=[bench, dict(name="Top", ports=[], sigs=[["s", 2]], insts=[dict(name="i0", n=0, of=["mod", 0], conns=[["nonesuch", ["sl", ["sig", "s"], ["i", 0]]]])])],
+                    exts=[], top=1)
+    leaf2 = copy.deepcopy(leaf); leaf2["ports"] = [["p", 2, "in"]]; leaf2["insts"][0]["conns"][0][1] = ["sl", ["sig", "p"], ["i", 0]]
+    late_w = dict(mods=[leaf2, dict(name="Top", ports=[], sigs=[["a", 2], ["b", 1]], insts=[dict(name="i0", n=0, of=["mod", 0], conns=[["p", ["cat", [["sig", "a"], ["sig", "b"]]]]])])],
+                  exts=[], top=1, hist=dict(observe=True, late=[[1, "a", 1]]))
+    return [("array_missing", dict(mods=[two, arr], exts=[], top=1)), ("index", dict(mods=[copy.deepcopy(two), oor], exts=[], top=1)),
+            ("index_late", late_ix), ("extra", extra_pl), ("width_late", late_w)]
 
 
 def run(run, tier, seed, replay=None):
@@ -442,8 +651,13 @@ def run(run, tier, seed, replay=None):
     for k in range(nbase):
         r = core.rng(seed, "C02", "base", k)
         simple = k % 3 == 0            # every third base design lies in the fragment Model/C02Checks.v is tied on
-        bases[k] = D.gen_design(r, size=r.choice([1, 2, 2, 3]), refs=not simple, ncs=not simple)
+        bases[k] = with_portless(core.rng(seed, "C02", "portless", k), D.gen_design(r, size=r.choice([1, 2, 2, 3]), refs=not simple, ncs=not simple))
+        if k % 4 == 1:
+            bases[k]["hist"] = dict(observe=True)       # a valid design stays valid when its parts are asked for their public attributes
     bbases = [B.gen_bdesign(core.rng(seed, "C02", "bbase", k)) for k in range(nbbase)]
+    for k, b in enumerate(bbases):
+        if k % 4 == 1:
+            b["hist"] = dict(observe=True)
     o1 = core.run_worker_sharded("c02", [dict(design=m, entry=ENTRY) for m in bases])
     o2 = core.run_worker_sharded("c02", [dict(design=m, kind="bdesign", entry=ENTRY) for m in bbases])
     # netlisting refuses physical primitives (Mos, Bipolar, Diode, ...) by design: only designs built from ideal
@@ -465,6 +679,8 @@ def run(run, tier, seed, replay=None):
                core_designs=len(bases), bundle_designs=len(bbases), core_designs_netlistable=n_netlistable, rejected_by_impl=sum(1 for _, c in bad1 + bad2 if c == 10),
                invalid_by_spec=sum(1 for _, c in bad1 + bad2 if c == 11), model_disagrees=sum(1 for _, c in bad1 if c == 2),
                core_designs_in_model_fragment=sum(1 for k in range(nbase) if k % 3 == 0), features_core=feats,
+               core_designs_with_portless_instances=sum(1 for m in bases if any(not D.target_ports(m, x["of"]) for md in m["mods"] for x in md["insts"])),
+               observed_before_the_call=sum(1 for m in bases + bbases if (m.get("hist") or {}).get("observe")),
                rule="a generated design counts when the specification (evaluated in Coq) calls it valid; it is non-trivial when it has at "
                     "least one instance connection (all do); each must be accepted by elaborate, to_proto and netlist")
     for lst, ds, outs, nm in ((bad1, bases, o1, "core"), (bad2, bbases, o2, "bundle")):
@@ -476,23 +692,8 @@ def run(run, tier, seed, replay=None):
             run.violation(f"C02:base-{nm}-{c}:" + json.dumps(ds[i], sort_keys=True), what,
                           dict(kind="spec-vs-impl-on-valid-design", case=ds[i], impl=outs[i], code=c, count=len(lst)), found_input=False)
     # ---- stream 2: single-fault mutants of the core designs
-    muts, meta = [], []
-    for cls, m in _corpus():
-        muts.append(m); meta.append(dict(cls=cls, base=-1, top=True, site_kind="corpus"))
-    for k, base in enumerate(bases):
-        reach = reachable(base)
-        ss = [s for s in sites(base) if s[0] in reach]      # faults in unreachable modules are not faults of the design
-        if not ss:
-            continue
-        deep = [s for s in ss if s[0] != base["top"]]
-        for cls, f in MUTATORS.items():
-            for j in range(per_class):
-                rr = core.rng(seed, "C02", cls, k * 16 + j)
-                site = rr.choice(deep) if deep and rr.random() < 0.5 else rr.choice(ss)
-                m = f(rr, copy.deepcopy(base), site)
-                if m is not None:
-                    muts.append(m); meta.append(dict(cls=cls, base=k, top=site[0] == base["top"], site_kind=site_kind(base, site)))
-    n1 = _mutant_stream(run, "single-fault-mutants", "design", muts, meta, MUTATORS, c_design, "chk_c02", "classes", None)
+    muts, meta = gen_mutants(seed, bases, per_class)
+    n1 = _mutant_stream(run, "single-fault-mutants", "design", muts, meta, MUTATORS, c_design, "chk_c02", "classes", None, REQUIRED_TAGS)
     # ---- stream 3: single-fault mutants of the bundle designs
     muts, meta = [], []
     for cls, m in _corpus_b():
@@ -504,14 +705,22 @@ def run(run, tier, seed, replay=None):
             for j in range(per_class + 1):
                 rr = core.rng(seed, "C02", cls, k * 16 + j)
                 m = None
+                pl = B.portless_inst_sites(base) if cls == "b_extra" else []
                 for attempt in range(6):                    # many classes apply to few sites: look for one
-                    site = rr.choice(deep) if deep and rr.random() < 0.5 else rr.choice(ss)
-                    m = f(rr, copy.deepcopy(base), site)
+                    site = rr.choice(pl) if pl and rr.random() < 0.6 else rr.choice(deep) if deep and rr.random() < 0.5 else rr.choice(ss)
+                    b = copy.deepcopy(base)
+                    b.pop("hist", None)
+                    m = f(rr, b, site)
                     if m is not None:
                         break
                 if m is not None:
-                    muts.append(m); meta.append(dict(cls=cls, base=k, top=site[0] == base["top"], site_kind=B.site_kind(base, site)))
-    n2 = _mutant_stream(run, "bundle-mutants", "bdesign", muts, meta, B.MUTATORS, B.c_bdesign, "chk_c02b", "classes_b", None)
+                    tags = m.pop("_tags", [])
+                    if rr.random() < 0.3:
+                        m["hist"] = dict(observe=True)
+                        tags.append("observed")
+                    muts.append(m); meta.append(dict(cls=cls, base=k, top=site[0] == base["top"], site_kind=B.site_kind(base, site), tags=tags))
+    n2 = _mutant_stream(run, "bundle-mutants", "bdesign", muts, meta, B.MUTATORS, B.c_bdesign, "chk_c02b", "classes_b", None,
+                        dict(b_extra=["portless-target"]))
     run.coverage["traces_validated_against_impl"] = n1 + n2 + len(bases) + len(bbases)
     # C02E: the checked pipeline model (coq Model/C02EPipeline.v) against the implementation on the core designs and mutants
     from . import c02e
